@@ -634,6 +634,12 @@ class C10(core.PropertyCheck):
                 want = [ref_parse_line(l) for b in f["tocs"] for l in content_lines(b)]
                 if all(w is not None for w in want) and want != impl["parsed"][f["fid"]]:
                     return f"entry-parse: toctree lines {[l for b in f['tocs'] for l in b]} of {f['fid']} parsed as {impl['parsed'][f['fid']]}, they read {want}"
+            # the generated projects declare no associated product: an entry naming a project (`T <|proj|>`) is reported
+            # and removed by validate_toc_entries, whatever precedes it
+            for f in case["files"]:
+                kept = [e for e in impl["parsed"][f["fid"]] if truthy(e[3])]
+                if kept:
+                    return f"unknown-project: toctree of {f['fid']} keeps {kept} although no associated product is declared"
             files = [(f["fid"], f.get("heading") or None, bool(f.get("orphan")), impl["parsed"][f["fid"]]) for f in case["files"]]
         else:
             files = all_files(case)
